@@ -37,12 +37,17 @@ def have_namespace():
         return False
 
 
-def run_ns(exe, fixture, lines, timeout=900):
-    """the harness inside a private mount namespace: fixture over /dev/urandom, tmpfs over /tmp"""
+def run_ns(exe, fixture, lines, timeout=900, tmpdir=None):
+    """the harness inside a private mount namespace: fixture over /dev/urandom, and over /tmp either a
+    fresh tmpfs or (tmpdir) a scratch directory that outlives the process, so that a later process can
+    find what an earlier one stored"""
     env = dict(vlib.ENV)
     env.update({"VERIF_C20_NS": "1", "VERIF_C20_FIXTURE": fixture})
-    script = 'mount --bind "$1" /dev/urandom && mount -t tmpfs tmpfs /tmp && exec "$2"'
-    p = subprocess.run(["unshare", "-rm", "sh", "-c", script, "sh", fixture, exe], input="\n".join(lines) + "\n",
+    if tmpdir is None:
+        script = 'mount --bind "$1" /dev/urandom && mount -t tmpfs tmpfs /tmp && exec "$2"'
+    else:
+        script = 'mount --bind "$1" /dev/urandom && mount --bind "$3" /tmp && exec "$2"'
+    p = subprocess.run(["unshare", "-rm", "sh", "-c", script, "sh", fixture, exe, tmpdir or ""], input="\n".join(lines) + "\n",
                        stdout=subprocess.PIPE, stderr=subprocess.PIPE, text=True, timeout=timeout, env=env)
     return p.returncode, [l[2:] for l in p.stdout.split("\n") if l.startswith("R ")], p.stderr
 
@@ -125,7 +130,7 @@ def gen_peer_lines(r, thorough, with_get_id):
     cases = []
     for iface in IFACES:
         for member in MEMBERS:
-            for typ in "csre":
+            for typ in "csrei":
                 senders = [None, ":1.9", "org.x.y"] if thorough or iface == PEER else [r.choice([None, ":1.9", "org.x.y"])]
                 for sender in senders:
                     for serial in ([1, 77, 4294967295] if thorough or (iface == PEER and member in ("Ping", "GetMachineId")) else [r.choice([1, 77, 4294967295, 12345])]):
@@ -165,22 +170,24 @@ def reply_ok(rep, serial, sender):
 
 
 def judge_peer(case, o):
+    """the property on one observed call of handle_peer_message / filter_peer"""
     iface, member, typ, serial, sender, rs = case
-    is_peer = iface == PEER and member in ("Ping", "GetMachineId")
+    peer_header = iface == PEER and member in ("Ping", "GetMachineId")
+    is_peer = typ == "c" and peer_header                    # a method CALL to Ping / GetMachineId on the Peer interface
+    if o["filter"] != ("true" if peer_header else "false"):
+        return "filter_peer %s a header that %s Peer.Ping/GetMachineId" % (
+            "accepts" if o["filter"] == "true" else "rejects", "names" if peer_header else "does not name")
     if not is_peer:
+        kind = {"c": "method call", "s": "signal", "r": "method return", "e": "error", "i": "message of invalid type"}[typ]
         if o["handled"] != "false":
-            return "a message that is not a Ping/GetMachineId call on the Peer interface was reported as handled=%s" % o["handled"]
+            return "a %s that is not a Ping/GetMachineId call on the Peer interface was reported as handled=%s" % (kind, o["handled"])
         if o["written"] != "-":
-            return "a reply was written for a message that is not a Peer call"
-        if o["filter"] != "false":
-            return "filter_peer accepts a message that is not a Peer call"
+            return "a reply was written for a %s that is not a Ping/GetMachineId call on the Peer interface" % kind
         if o["post"] != o["pre"]:
             return "the stored machine id changed while handling a message that is not a Peer call"
         return None
     if o["handled"] != "true":
         return "a %s call on the Peer interface was reported as handled=%s" % (member, o["handled"])
-    if o["filter"] != "true":
-        return "filter_peer rejects a %s call on the Peer interface" % member
     why, bc = reply_ok(o["written"], serial, sender)
     if why:
         return why
@@ -190,12 +197,33 @@ def judge_peer(case, o):
     if not body.startswith("s:"):
         return "the GetMachineId reply does not carry one string"
     idb = unhx(body[2:])
-    if o["pre"] not in ("none", "unobserved") and hx(idb) != o["pre"]:
-        return "GetMachineId did not return the stored id"
     if o["post"] != "unobserved" and hx(idb) != o["post"]:
         return "the id returned is not the id stored"
+    if o["pre"] not in ("none", "unobserved"):
+        # a stored id (written by an earlier call of the same code) must come back unchanged
+        return None if hx(idb) == o["pre"] else "GetMachineId did not return the stored id"
     if not is_machine_id(idb):
-        return "the machine id is not a 32-digit hexadecimal string: %r" % idb.decode("latin-1")
+        return "the freshly created machine id is not a 32-digit hexadecimal string: %r" % idb.decode("latin-1")
+    return None
+
+
+def judge_later_process(o, expected):
+    """a later process finds the id an earlier process stored: it must come back unchanged, twice"""
+    for k in ("handled1", "handled2"):
+        if o.get(k) != "true":
+            return "GetMachineId was reported as %s=%s" % (k, o.get(k))
+    if o.get("pre") != expected:
+        return None       # environment (the file did not survive): not a verdict; the caller reports a broken tie
+    for k in ("r1", "r2"):
+        why, bc = reply_ok(o[k], 77, ":1.9")
+        if why:
+            return why
+        if bc[0] != "s:" + expected:
+            return "a later process did not return the id stored by an earlier one"
+    if o["file1"] != expected or o["file2"] != expected:
+        return "the stored id was rewritten by a later process"
+    if not is_machine_id(unhx(expected)):
+        return "the stored id (written by create_and_store) is not a 32-digit hexadecimal string"
     return None
 
 
@@ -238,14 +266,17 @@ def run(ctx):
     ctx.rule = ("machine id: draws = all-zero, all-ones, fixed boundary draws, one draw for every feasible pair (k1,k2) of "
                 "leading-zero hex digit counts of the two random words (0..16, 0..8), and seeded random draws; each draw is "
                 "put into the /dev/urandom fixture, the stored id removed, GetMachineId called twice (the second time with "
-                "another draw in the fixture). Peer dispatch: all combinations of 7 interfaces x 9 members (absent, exact, near "
-                "misses) x 4 message types, with senders/serials varied. Non-trivial: every draw case; a dispatch case whose "
+                "another draw in the fixture); afterwards a LATER process (new namespace, other draw) on the same /tmp directory must "
+                "return the id the earlier process stored. Peer dispatch: all combinations of 7 interfaces x 9 members (absent, exact, "
+                "near misses) x 5 message types (call, signal, method return, error, invalid), with senders/serials varied. Non-trivial: every draw case; a dispatch case whose "
                 "interface is the Peer interface or whose member is Ping/GetMachineId. Distinct = distinct inputs.")
     ctx.trusted = ["Coq 8.16.1 kernel (coqc), no native_compute", "extraction with ExtrOcamlBasic only, ocamlfind ocamlopt 4.13.1",
                    "ocaml/c20/driver.ml and harness/src/bin/c20.rs (I/O wrappers; own little-endian decoder at the peer)",
                    "util-linux unshare + mount (private mount namespace with a fixture over /dev/urandom and a tmpfs over /tmp)",
                    "core::fmt `{:0wX}` is modelled as minimum-width upper-case hex (hex_min), std::str::from_utf8 as a predicate true on ASCII"]
-    ctx.assumptions = ["/dev/urandom delivers 12 bytes; std::fs::write succeeds or GetMachineId panics (unwrap) - not part of the property",
+    ctx.assumptions = ["nobody but create_and_store_machine_uuid writes /tmp/dbus_machine_uuid: a foreign or corrupt stored file is returned as it is "
+                       "(or panics the unwrap when it is not UTF-8 / holds NUL) - an environment assumption (hypothesis of C20_id_always_32hex), never a verdict",
+                       "/dev/urandom delivers 12 bytes; std::fs::write succeeds or GetMachineId panics (unwrap) - not part of the property",
                        "nothing else removes or rewrites /tmp/dbus_machine_uuid between exists() and read()",
                        "sending the reply succeeds (C10 covers sending)"]
     ctx.try_proof()
@@ -359,10 +390,13 @@ def run_in_namespace(ctx, exe, drv, r, thorough, tmpd):
         dc = draws[i::nshard]
         others = [bytes(r.randrange(256) for _ in range(12)) for _ in dc]
         lines = [peer_line(c) for c in pc] + ["u %s %s" % (d.hex(), o.hex()) for d, o in zip(dc, others)]
-        shards.append((fx, pc, dc, others, lines))
+        td = os.path.join(tmpd, "tmp_%d" % i)          # mounted over /tmp; survives the harness process
+        os.makedirs(td)
+        shards.append((fx, pc, dc, others, lines, td))
     with cf.ThreadPoolExecutor(nshard) as ex:
-        results = list(ex.map(lambda s: run_ns(exe, s[0], s[4]), shards))
-    for (fx, pc, dc, others, lines), (rc, outs, err) in zip(shards, results):
+        results = list(ex.map(lambda s: run_ns(exe, s[0], s[4], tmpdir=s[5]), shards))
+    later = []
+    for (fx, pc, dc, others, lines, td), (rc, outs, err) in zip(shards, results):
         if rc != 0 or len(outs) != len(lines):
             ctx.tie_broken("harness c20 crashed or produced short output inside the namespace", "rc=%s %d/%d\n%s" % (rc, len(outs), len(lines), err[-2000:]))
             continue
@@ -371,6 +405,8 @@ def run_in_namespace(ctx, exe, drv, r, thorough, tmpd):
             continue
         compare_peer(ctx, drv, pc, outs[:len(pc)])
         uouts = outs[len(pc):]
+        if uouts and "file2" in fields(uouts[-1]):
+            later.append((fx, td, fields(uouts[-1])["file2"]))
         mlines = []
         for d, o, li in zip(dc, others, uouts):
             f = fields(li)
@@ -401,6 +437,31 @@ def run_in_namespace(ctx, exe, drv, r, thorough, tmpd):
                     ctx.violation(why, data)
                 else:
                     ctx.tie_broken("correspondence: the id differs from format_uuid(rand1, rand2, secs) of the model although it is a stable 32-hex-digit id", str(data))
+    # a LATER process (new namespace, another draw in the fixture) on the directory where an earlier
+    # process stored its id: the stored id must come back unchanged
+    for fx, td, expected in later:
+        open(fx, "wb").write(bytes(r.randrange(256) for _ in range(12)))
+        rc, outs, err = run_ns(exe, fx, ["g"], tmpdir=td)
+        if rc != 0 or len(outs) != 1:
+            ctx.tie_broken("harness c20 crashed in the later-process run", err[-2000:])
+            continue
+        oi = fields(outs[0])
+        ctx.case(("g", expected), nontrivial=True, sample={"later_process_finds": unhx(expected).decode("latin-1"), "impl": outs[0][:160]} if len(ctx.samples) < 8 else None)
+        ctx.count("later_process:stored_id_found")
+        if oi.get("pre") != expected:
+            ctx.tie_broken("environment: the id file stored by the earlier process was not found by the later one", outs[0])
+            continue
+        rcm, mouts, errm = run_model(drv, ["g %s %s 0" % (expected, oi.get("draw", "00" * 12) if len(oi.get("draw", "")) == 24 else "00" * 12)])
+        om = fields(mouts[0]) if rcm == 0 and mouts else {}
+        same = all(oi.get(k) == om.get(k) for k in ("pre", "handled1", "r1", "file1", "handled2", "r2", "file2"))
+        why = judge_later_process(oi, expected)
+        if why or not same:
+            ctx.disagreements_checked += 1
+            data = {"kind": "g", "stored": expected, "impl": outs[0], "model": mouts[0] if mouts else errm}
+            if why:
+                ctx.violation(why, data)
+            else:
+                ctx.tie_broken("correspondence: the later process differs from the model although the stored id came back unchanged", str(data))
     ctx.exhaustive = False
 
 
@@ -454,6 +515,16 @@ def replay(ctx, body):
             print("input:", line)
             print("impl :", outs[0] if outs else err)
             why = judge_peer(c, fields(outs[0])) if outs else "harness failed"
+        elif kind == "g":
+            td = os.path.join(tmpd, "tmp")
+            os.makedirs(td)
+            rc, outs, err = run_ns(exe, fx, ["u %s %s" % ("01" * 12, "02" * 12)], tmpdir=td)
+            expected = fields(outs[0]).get("file2") if outs else None
+            open(fx, "wb").write(b"\x03" * 12)
+            rc, outs, err = run_ns(exe, fx, ["g"], tmpdir=td)
+            print("earlier process stored:", expected)
+            print("later process :", outs[0] if outs else err)
+            why = judge_later_process(fields(outs[0]), expected) if outs and expected else "harness failed"
         else:
             rc, outs, err = run_plain(exe, ["f"] * 200)
             why = next((w for w in (judge_uuid(fields(o)) for o in outs) if w), None)
